@@ -33,7 +33,12 @@ pub struct Case {
 const CHARS: &[char] = &[
     'a', 'b', 'A', 'B', 'x', '<', '>', '&', '/', ' ', '\n', '\r', '\t', '\0', '-', '!', '=', '"', '\'', ';', '#', '?', '@',
     '0', '9', 'é', 'ß', '€', '\u{FEFF}', '😁', '\u{3f}', '\u{40}', '\u{7f}', '\u{80}',
+    // byte-value boundaries of UTF-8 (0xBF / 0xC0 / 0xFF tails) next to the bitmap's edge (63, 64)
+    '¿', 'ÿ', 'À', '\u{13F}', '\u{7FF}', '\u{800}', '\u{FFF}', '\u{FFFF}', '\u{3FFFF}', '\u{10FFFF}', '>', '?', '@', '\u{1}', '\u{3e}',
 ];
+/// characters whose bytes are all >= 64 (never in a SmallCharSet)
+const HIGH: &[char] = &['a', 'z', 'A', '@', '_', '~', '\u{7f}', 'é', '¿', 'ÿ', '漢', '\u{FFFF}', '😁', '\u{13F}'];
+const LENS: &[usize] = &[7, 8, 9, 15, 16, 17, 23, 24, 31, 32, 33, 47, 63, 64, 65, 71, 72, 73, 79, 80, 127, 128, 129, 255, 256, 257];
 
 fn gen_string(s: &mut Src, maxlen: usize) -> String {
     // sometimes a fragment of a keyword so that eat() can match across buffers
@@ -47,6 +52,24 @@ fn gen_string(s: &mut Src, maxlen: usize) -> String {
         }
         if s.chance(60) {
             out.push(s.char_from(CHARS));
+        }
+        return out;
+    }
+    if s.chance(24) {
+        // a long run (byte length at / around a stride or threshold) of characters that are in no
+        // set, with 0-2 arbitrary characters placed anywhere (usually near the end)
+        let target = *s.pick(LENS) + s.below(3);
+        let fill = s.char_from(HIGH);
+        let mixed = s.bool();
+        let mut out = String::new();
+        while out.len() < target {
+            out.push(if mixed { s.char_from(HIGH) } else { fill });
+        }
+        for _ in 0..s.below(3) {
+            let c = s.char_from(CHARS);
+            let cs: Vec<char> = out.chars().collect();
+            let at = if s.chance(180) { cs.len() - s.below(cs.len().min(9)) } else { s.below(cs.len() + 1) };
+            out = cs[..at].iter().chain(std::iter::once(&c)).chain(cs[at..].iter()).collect();
         }
         return out;
     }
@@ -64,7 +87,9 @@ const PATS: &[&str] = &[
 
 fn gen_set(s: &mut Src) -> u64 {
     // the sets the tokenizers use, or random bits
-    match s.below(6) {
+    match s.below(8) {
+        6 => (1 << b'?') | (1 << b'&') | (1 << b'<'),
+        7 => (1u64 << 63) | 1 | ((s.u32() as u64) << 16),
         0 => (1 << b'\r') | (1 << 0) | (1 << b'&') | (1 << b'<') | (1 << b'\n'),
         1 => (1 << b'\r') | (1 << 0) | (1 << b'-') | (1 << b'<') | (1 << b'\n'),
         2 => (1 << b'\r') | (1 << 0) | (1 << b'"') | (1 << b'&') | (1 << b'\n'),
